@@ -215,7 +215,14 @@ def _make_case(rng, i, *, limit=None):
                     break
             ma["avail"] = av
         pre = [ma]
-    cfg = {"iface": iface, "shape": shape, "pre": pre, "pform": pform, "PRD": PRD, "pn": pn, "wform": wform, "lam": [list(x) for x in lam],
+    again = None
+    if iface == "class" and rng.random() < 0.4:
+        # call history on the SAME MDP object: the planner first plans under another configuration, which is then
+        # changed in place (planner.entropy_weight / planner.policy_prior / mdp.discount_rate) before the judged call
+        kind = rng.choice(["weight", "weight", "discount"] + (["prior"] if K >= 2 else []))
+        again = {"change": kind, "weight": rng.choice([0.37, 2.5]), "discount": rng.choice([0.3, 0.6]),
+                 "prior": rand_comp(rng, 10, K) if K >= 2 else [10]}
+    cfg = {"iface": iface, "shape": shape, "pre": pre, "again": again, "pform": pform, "PRD": PRD, "pn": pn, "wform": wform, "lam": [list(x) for x in lam],
            "iform": iform, "IPD": IPD, "ip": ip, "force": force, "dtype": dtype, "check": check, "budget": budget,
            "rep": dict(REPS[rng.randrange(len(REPS))]) if iface == "class" else None,
            "limit": limit is not None}
@@ -228,7 +235,7 @@ def clamp_case(N, K, avail, P, PD, R, GN, GD, lam):
     pn = [[(12 // sum(row)) * x for x in row] for row in avail]
     cfg = {"iface": "class", "shape": "full", "pform": "none", "PRD": 12, "pn": pn, "wform": "float",
            "lam": [list(lam)] * N, "iform": "none", "IPD": 12, "ip": [list(r) for r in pn], "force": True,
-           "dtype": "f64", "check": True, "budget": NMAIN, "rep": dict(REPS[0]), "limit": False, "pre": []}
+           "dtype": "f64", "check": True, "budget": NMAIN, "rep": dict(REPS[0]), "limit": False, "pre": [], "again": None}
     return {"m": m, "cfg": cfg}
 
 
@@ -241,8 +248,50 @@ CLAMP_CASES = [
 ]
 
 
+def tie_case(rng, iface):
+    """A state whose actions are exactly tied under the evaluation of the initial (uniform) policy but not at the
+    soft fixed point: its actions lead to 'gadget' states whose self-looping actions pay rewards of zero mean and
+    different spread (value 0 under the uniform policy, lambda ln mean exp(r / lambda) / (1 - gamma) at the solution).
+    An implementation that stops updating a row once it has not moved reports convergence with that row stale."""
+    K = rng.choice([2, 2, 3, 4])
+    G = rng.choice([2, min(K, 3)]) if K > 2 else 2
+    N = rng.randint(1 + G, min(6, 3 + G))
+    PD = rng.choice([2, 4])
+    GN, GD = rng.choice([(1, 2), (3, 4), (9, 10)])
+    pat = {2: [1, -1], 3: [1, 0, -1], 4: [1, 1, -1, -1]}[K]
+    perm = list(range(N))
+    rng.shuffle(perm)
+    s0, gad = perm[0], perm[1:1 + G]
+    r0 = rng.randint(-1, 1)
+    m = rand_instance(rng, N, K, PD, GN, GD, 2)
+    for a in range(K):
+        g = gad[a % G]
+        m["P"][s0][a] = [PD if t == g else 0 for t in range(N)]
+        m["R"][s0][a] = [r0] * N
+    scale = rng.sample([1, 2, 3], G)
+    for i, g in enumerate(gad):
+        for a in range(K):
+            m["P"][g][a] = [PD if t == g else 0 for t in range(N)]
+            m["R"][g][a] = [scale[i] * pat[a]] * N
+    # (the remaining states keep their random rows: nothing leads from the tie state or the gadgets to them)
+    lam = [list(rng.choice([(1, 2), (1, 1), (2, 1)]))] * N
+    cfg = {"iface": iface, "shape": "full", "pform": "none", "PRD": K, "pn": [[1] * K for _ in range(N)],
+           "wform": rng.choice(["float", "tensor1"]), "lam": lam, "iform": "none", "IPD": K, "ip": [[1] * K for _ in range(N)],
+           "force": True if iface == "class" else rng.random() < 0.5, "dtype": "f64", "check": True, "budget": NMAIN,
+           "rep": dict(REPS[rng.randrange(len(REPS))]) if iface == "class" else None, "limit": False, "pre": [],
+           "again": None, "tie": 1}
+    return {"m": m, "cfg": cfg}
+
+
 def make_cases(rng, n, n_limit):
     cases = [make_case(rng, i) for i in range(n)] + [dict(m=dict(c["m"]), cfg=dict(c["cfg"])) for c in CLAMP_CASES]
+    k = 0
+    while k < max(8, n // 25):
+        case = tie_case(rng, "class" if k % 4 == 3 else "function")
+        c = case["cfg"]
+        if magnitude_fine(case["m"], c["lam"], c["PRD"], 1):
+            cases.append(case)
+            k += 1
     # decreasing-weight families on oracle-sized instances with a uniform prior
     k = 0
     while k < n_limit:
@@ -382,6 +431,27 @@ class Runner:
             for earlier in self.pre:
                 planner.plan_on(earlier)            # same planner object, another MDP; its result is not judged here
                 self.calls += 1
+            ag = c.get("again")
+            if ag:
+                # same planner object, same MDP object, stale configuration first; then the configuration is set in
+                # place to the one of this case and the planner is asked again
+                torch = _torch()
+                mdp = self.b.mdp
+                g0 = mdp.discount_rate
+                if ag["change"] == "weight":
+                    planner.entropy_weight = float(ag["weight"])
+                elif ag["change"] == "prior":
+                    row = [0.0] * K
+                    for a in range(K):
+                        row[self.apos[a]] = ag["prior"][a] / 10
+                    planner.policy_prior = torch.tensor([row], dtype=torch.float64)
+                else:
+                    mdp.discount_rate = float(ag["discount"])
+                try:
+                    planner.plan_on(mdp)
+                    self.calls += 1
+                finally:
+                    planner.entropy_weight, planner.policy_prior, mdp.discount_rate = self.ew, self.prior, g0
             res = planner.plan_on(self.b.mdp)
             pi, q, v = [], [], []
             for s in range(N):
@@ -483,7 +553,8 @@ def record_trace(case, corrupt=None):
              unif=1 if all(x * sum(m["avail"][s]) == c["PRD"] for s, r in enumerate(c["pn"]) for x in r if x > 0) else 0,
              f32=1 if c["dtype"] == "f32" else 0, ev=evs, conv=1 if conv else 0, its=cits - first,
              orc=1 if (oracle_sized(m) and c["dtype"] == "f64") else 0, tail=1 if first > 0 else 0,
-             pre=[{"N": pm["N"], "K": pm["K"]} for pm in c.get("pre", [])])
+             pre=[{"N": pm["N"], "K": pm["K"], "same": 0} for pm in c.get("pre", [])]
+                 + ([{"N": N, "K": K, "same": 1}] if c.get("again") else []))
     if first > 0:
         T["ip"], T["IPD"] = [[1] * K for _ in range(N)], K     # unused: Start of a tail is not compared
     return T, {"main": main, "calls": rn.calls, "notes": sorted(notes), "first": first}
@@ -578,7 +649,8 @@ DRIFT_FLAGS = {"initial-policy-differs-from-configured", "iterate-policy-not-nor
 
 
 def shape_of(c):
-    return f"weight={c['wform']},prior={c['pform']},dtype={c['dtype']}" + (",planner-reused" if c.get("pre") else "")
+    return (f"weight={c['wform']},prior={c['pform']},dtype={c['dtype']}" + (",planner-reused" if c.get("pre") else "")
+            + (f",replanned-same-mdp-after-{c['again']['change']}-change" if c.get("again") else ""))
 
 
 CLAMP_SIG = "C19:EntropyRegularizedPolicyIteration.plan_on:unavailable-action-competes-through-clamped-zero-prior"
@@ -670,6 +742,10 @@ def judge_cases(ctx, cases, *, corrupt=None, drop_event=None, label="trace", cov
         ctx.count(f"converged_{c['iface']}_{c['dtype']}")
         if c.get("pre"):
             ctx.count("converged_on_a_reused_planner_object")
+        if c.get("again"):
+            ctx.count("converged_on_a_replanned_same_mdp_object")
+        if c.get("tie"):
+            ctx.count("converged_with_a_row_tied_under_the_initial_policy")
         if r["rep"].get("fine"):
             ctx.count("fine_lookahead_judged")
         if (k % 3 == 0 or c["limit"]) and r["rep"].get("mag") == 1:
